@@ -281,6 +281,27 @@ def footprintMsgs (nm : String) (fm : FM) (addr size : Int) : Msgs :=
   | some p => [s!"{nm}:bytes[{p.addr},{p.addr + p.len}):outside:[{addr},{addr + size})"]
   | none => [nm ++ ":outside"]
 
+/-- insertion into a list sorted by stride -/
+def insertDim (d : Int × Int) : List (Int × Int) → List (Int × Int)
+  | [] => [d]
+  | x :: xs => if d.1 ≤ x.1 then d :: x :: xs else x :: insertDim d xs
+
+def nestedFrom (prevSpan : Int) : List (Int × Int) → Bool
+  | [] => true
+  | (st, ext) :: rest => decide (st ≥ prevSpan) && nestedFrom (st * ext) rest
+
+/-- Distinct elements of an OFM are written to distinct bytes.  Decided through a sufficient criterion every layout Vela
+    uses meets (plain, transposed, multiplied strides): ordered by stride, each dimension steps over the whole span of the
+    previous one, the smallest over one element. -/
+def ofmInjectiveMsgs (fm : FM) : Msgs :=
+  let (sy, sx, sc) := defaultStrides fm
+  let es := fm.dtype.bytes
+  let dims : List (Int × Int) :=
+    if fm.nhcwb16 then [(sy, fm.shape.height), (sx, fm.shape.width), (sc, (fm.shape.depth + 15) / 16), (es, min fm.shape.depth 16)]
+    else [(sy, fm.shape.height), (sx, fm.shape.width), (sc, fm.shape.depth)]
+  let sorted := (dims.filter (·.2 > 1)).foldl (fun acc d => insertDim d acc) []
+  if nestedFrom es sorted then [] else [s!"ofm.overlap:strides(y,x,c)={sy},{sx},{sc}:extent={fm.shape.height},{fm.shape.width},{fm.shape.depth}"]
+
 def verdict (ms : Msgs) : String := s!"{ms.length} " ++ "~".intercalate (ms.take 6)
 
 end VelaVerif.NpuOpSpec
